@@ -75,14 +75,29 @@ def forbidden_scan():
     return bad
 
 
-def assumptions_of(pid):
-    """Re-compile the property file alone and capture what Print Assumptions prints."""
+def assumptions_of(pid, cone=None):
+    """Re-compile the property file(s) and capture what Print Assumptions prints.  The output is cached under
+    build/assumptions keyed by the content of every file in the dependency cone (and the .vo files being present),
+    so an unchanged cone is not re-compiled."""
+    key = None
+    if cone:
+        files = sorted(cone["files"])
+        if all(os.path.exists(f + "o") for f in files):
+            key = core.file_hash(files)
+            cpath = os.path.join(core.BUILD, "assumptions", pid + ".json")
+            if os.path.exists(cpath):
+                c = json.load(open(cpath))
+                if c.get("key") == key and c.get("ok"):
+                    return True, c["out"]
     ok, out = True, ""
     for f in sorted(os.listdir(os.path.join(core.COQ, "Properties"))):
         if f.startswith(pid) and f.endswith(".v"):
             p = core.sh(["coqc", "-Q", ".", "Termemu", os.path.join("Properties", f)], cwd=core.COQ, check=False, timeout=900)
             out += (p.stdout or b"").decode("utf8", "replace")
             ok = ok and p.returncode == 0
+    if key and ok:
+        os.makedirs(os.path.join(core.BUILD, "assumptions"), exist_ok=True)
+        json.dump({"key": key, "ok": ok, "out": out}, open(os.path.join(core.BUILD, "assumptions", pid + ".json"), "w"))
     return ok, out
 
 
@@ -229,7 +244,13 @@ class Run:
             hdr = case_lines(cases_text, cid).splitlines()[1].split()
             self.size_hist["%sx%s" % (hdr[3], hdr[4])] += 1
             first_trig = None
+            marked_ops = set()      # operations on which a known-finding mark fired
+            tainted_from = None     # from here on the implementation state is known to differ (lasting damage, or history mode)
             n = min(len(i["ops"]), len(m["ops"]))
+            for k in range(len(m["ops"])):
+                if m["ops"][k][0][3] & 10:
+                    tainted_from = k
+                    break
             for k in range(n):
                 kind = lab[k] if k < len(lab) else 0
                 self.kind_hist[KIND_NAMES.get(kind, str(kind))] += 1
@@ -237,6 +258,9 @@ class Run:
                 trig = mo[0][3]
                 if trig and (is_span or trig & 4):
                     self.known_hits[trig] += 1
+                    marked_ops.add(k)
+                    if tainted_from is None and (trig & 10):
+                        tainted_from = k
                     if first_trig is None:
                         first_trig = k
                     if step and not (trig & 10):
@@ -276,10 +300,12 @@ class Run:
             for op, text in i["problems"]:
                 if not text.startswith(ppref):
                     continue
-                if first_trig is not None and op >= first_trig and is_span:
+                lasting = tainted_from is not None and op >= tainted_from
+                if is_span and lasting:
+                    # the row is known to be malformed from here on (D12 glyph wider than the screen, D13 raw invalid bytes)
                     self.known_hits["P:" + text.split(" ")[0]] += 1
                     continue
-                if first_trig is not None and op >= first_trig and not is_span and (m["ops"][first_trig][0][3] & 2):
+                if not is_span and lasting and (m["ops"][tainted_from][0][3] & 2):
                     self.known_hits["P:" + text.split(" ")[0]] += 1
                     continue
                 self.add_violation("predicate", "op %d: %s" % (op, text), cases_text, cid, op)
@@ -355,9 +381,17 @@ def main():
         proof = {"ok": False, "why": "no property file"}
     else:
         vo = cone["file"] + "o"
-        ok, assum_out = assumptions_of(pid) if os.path.exists(vo) or True else (False, "")
+        ok, assum_out = assumptions_of(pid, cone) if st["coq_ok"] or True else (False, "")
         if not ok:
             proof = {"ok": False, "why": "proof obligation no longer checks: " + assum_out.strip()[-1500:]}
+        # a file of the cone that make could not compile (its stale .vo must not be trusted)
+        failed = set(re.findall(r'File "\./([^"]+\.v)", line \d+, characters [^\n]*\nError', st["coq_log"]))
+        failed |= set(m[:-1] for m in re.findall(r"\*\*\* \[[^\]]*?: (\S+\.vo)\] Error", st["coq_log"]))
+        rel = set(os.path.relpath(f, core.COQ) for f in cone["files"])
+        hit = sorted(f for f in failed if f in rel)
+        if hit:
+            proof = {"ok": False, "why": "proof obligation no longer checks: %s does not compile against the regenerated sources:\n%s" % (
+                ", ".join(hit), "\n".join(l for l in st["coq_log"].splitlines() if "Error" in l or "File" in l)[-1200:])}
         if not st["gen_ok"]:
             proof = {"ok": False, "why": "translator rejected the source: " + st["gen_log"][-1500:]}
     bad = forbidden_scan()
@@ -390,6 +424,20 @@ def main():
                               tuple(cfg["ppref"]))
             for extra in cfg.get("extra", []):
                 extra(run, tier, seed)
+
+    # ---- independent re-check of the compiled development (thorough tier of C19 only: it takes minutes) ----
+    coqchk = None
+    if tier == "thorough" and pid == "C19" and not replay:
+        mods = []
+        for sub_ in ("Model", "Spec", "Proofs", "Gen", "Properties"):
+            for p_ in core.coq_sources(sub_):
+                if os.path.exists(p_ + "o"):
+                    mods.append("Termemu." + os.path.basename(p_)[:-2])
+        p_ = core.sh(["coqchk", "-silent", "-o", "-Q", ".", "Termemu"] + sorted(set(mods)), cwd=core.COQ, check=False, timeout=7200)
+        out_ = (p_.stdout or b"").decode("utf8", "replace")
+        coqchk = {"exit": p_.returncode, "modules": len(set(mods)), "tail": out_[-1500:]}
+        if p_.returncode != 0:
+            proof = {"ok": False, "why": "coqchk rejected the compiled development: " + out_[-800:]}
 
     # ---- verdict ----
     known = load_known()
@@ -456,6 +504,7 @@ def main():
             "sizes": dict(run.size_hist.most_common(12)),
             "known_finding_hits": {str(k): v for k, v in run.known_hits.items()},
             "corpus_cases": run.stats.get("corpus_cases", 0),
+            "coqchk": coqchk,
             "samples": run.samples or [{"note": "no generated case sampled"}],
             "extra": {k: v for k, v in run.stats.items() if k not in ("cases", "ops_compared", "ops_projected")},
         },
